@@ -169,6 +169,9 @@ impl GraphSnapshot for StorageSnapshot {
             }
         }
 
+        // Index entries of deleted nodes are not removed at commit; never hand them out.
+        results.retain(|iid| !self.tombstoned_nodes.contains(iid));
+
         if results.is_empty() {
             None
         } else {
